@@ -390,9 +390,9 @@ def run(tier: str, replay: str | None = None) -> int:
             pres = [p for p in pres if len(p) == 1] + [("enq", "enq"), ("enq", "add_done"), ("ask", "enq"), ("enq", "peek"), ("enq", "ask", "enq")]
             progs2 = [PROGRAMS[2][0], PROGRAMS[2][2]]
         for p in pres:
-            # thorough: every depth-3 prefix at bound 1; bound 2 for the prefixes of depth <= 2 on the
+            # thorough: every depth-3 prefix at bound 1; bound 2 for the prefixes of depth 1 on the
             # fast configurations (a bound-2 task has up to 2*10^5 schedules)
-            b = bound if tier == "quick" else (2 if (len(p) <= 2 and not slow and cfg != "grpc(mem)") else 1)
+            b = bound if tier == "quick" else (2 if (len(p) <= 1 and not slow and cfg != "grpc(mem)") else 1)
             for progs in progs2:
                 tasks.append((cfg, p, progs, b if (tier == "quick" or progs in (PROGRAMS[2][0], PROGRAMS[2][2])) else 1))
             if cfg in ("jlist-procs", "jlist-forked"):
